@@ -115,6 +115,37 @@ Theorem C02_every_error_return_serves_nothing : forall (is_ip : bytes -> bool) c
 Proof. exact gen_front_outcomes. Qed.
 Print Assumptions C02_every_error_return_serves_nothing.
 
+(** ** At dial time
+
+    The configured Lookup is not a constant function and the registry moves:
+    for every history of {the lookup's answers change, endpoints connect /
+    disconnect / re-register, a front connection arrives} - with what
+    NewServer stores in s.lookup and the statements of isRejectedDomain and
+    Server.dial as emitted from the current source - every connection is
+    routed by what the lookup answers and what the registry holds at its own
+    dial, never by an earlier answer. *)
+Theorem C02_routed_by_lookup_at_dial_time : forall (is_ip : bytes -> bool) has_lk has_home evs lk reg,
+  run_hist is_ip gen_lookup_store gen_rejected_steps gen_dial_steps has_lk has_home lk reg [] evs
+  = spec_hist is_ip gen_rejected_suffixes has_lk has_home lk reg evs.
+Proof. exact gen_routed_by_lookup_at_dial_time. Qed.
+Print Assumptions C02_routed_by_lookup_at_dial_time.
+
+(** A server that remembers successful answers per domain (seeded change
+    C02-g): refuted.  The name is answered with endpoint 1, then refused, then
+    moved to endpoint 2; a connection after each change: the memoising server
+    hands all three to endpoint 1, the specification says endpoint 1, refusal,
+    endpoint 2. *)
+Theorem C02_routed_by_lookup_at_dial_time_refuted :
+  let d := [100; 46; 99]%N in let a := [47; 97]%N in let b := [47; 98]%N in
+  let reg := fun n : bytes => if beqb n a then Some 1%N else if beqb n b then Some 2%N else None in
+  let none := fun _ : bytes => mkLk None true in
+  run_hist (fun _ => false) LMemo gen_rejected_steps gen_dial_steps true false none reg [] (memo_history d a b)
+    = [REndpoint 1 a; REndpoint 1 a; REndpoint 1 a] /\
+  spec_hist (fun _ => false) gen_rejected_suffixes true false none reg (memo_history d a b)
+    = [REndpoint 1 a; RLookupErr; REndpoint 2 b].
+Proof. exact gen_memo_server_refuted. Qed.
+Print Assumptions C02_routed_by_lookup_at_dial_time_refuted.
+
 (** Why the premise matters: a list that tests the destination instead of the
     error does not satisfy it, and serves a name the lookup refused. *)
 Theorem C02_dest_tested_serves_refused_name : forall cfg sni d ep,
@@ -274,6 +305,9 @@ Theorem C02_source_tie :
   gen_rejected_suffixes = deployed_suffixes /\
   list_eqb dial_step_eqb gen_dial_steps deployed_dial_steps = true /\
   lookup_err_guarded gen_dial_steps = true /\
+  (gen_lookup_store = LDirect /\
+   list_eqb String.eqb gen_lookup_callers ["Server.dial"%string] = true /\
+   gen_lookup_calls_in_dial = 1%nat /\ lookup_steps gen_dial_steps = 1%nat) /\
   list_eqb host_step_eqb gen_host_steps deployed_host_steps = true /\
   reject_before_dialb = true /\
   list_eqb String.eqb gen_host_conn_calls deployed_host_conn_calls = true /\
@@ -282,9 +316,9 @@ Theorem C02_source_tie :
   RouteGen.src_diff gen_route_src frozen_route_src = [].
 Proof.
   exact (conj gen_rejected_steps_eq (conj gen_suffixes_eq (conj gen_dial_steps_deployed
-          (conj gen_dial_lookup_err_guarded (conj gen_host_steps_deployed
+          (conj gen_dial_lookup_err_guarded (conj gen_lookup_store_direct (conj gen_host_steps_deployed
           (conj gen_reject_before_dial (conj gen_host_conn_calls_deployed
-            (conj gen_lock_skeleton gen_route_src_frozen)))))))).
+            (conj gen_lock_skeleton gen_route_src_frozen))))))))).
 Qed.
 Print Assumptions C02_source_tie.
 
